@@ -187,6 +187,42 @@ def _check_unit(run04, run05, P, ctx, owner, fn, stats):
                                         {'marked_result': list(w)})
                     elif len(run05.samples) < 10:
                         run05.sample({'owner': owner, 'setter': base, 'argument': vn, 'guards': guards_txt, 'pieces': _pieces_txt(pcs), 'roles': rl, 'verdict': 'decomposition as claimed'})
+                    # a shield is written ONLY under its documented condition, read on the result as it is meant to decompose (the same text
+                    # without the shield pieces, markers where the components are meant to be):
+                    #   "/"   an authority is present and the path does not start with "/"
+                    #   "/."  no authority and the path starts with "//"
+                    #   "./"  neither scheme nor authority and the first segment of the path contains ":"
+                    if si:
+                        pcs2 = [pc for i, pc in enumerate(pcs) if i not in si]
+                        rl2 = roles(comp, pcs2)
+                        eb2, ea2 = {}, {}
+                        keep2 = [m for m in BASE10 if m[0] != comp]
+                        ci2 = [i for i, r_ in enumerate(rl2) if r_ == 'comp']
+                        if ci2:
+                            eb2.setdefault(ci2[0], []).append(comp + '+')
+                            ea2.setdefault(ci2[-1], []).append(comp + '-')
+                        elif comp == 'p':
+                            eb2.setdefault(len(pcs2), []).extend(['p+', 'p-'])
+                        Ru, outU = B.result_language(p, p.assume, cL, cR, pcs2, keep=keep2, emit_before=eb2, emit_after=ea2)
+                        lit = b''.join(pcs[i][1] for i in si)
+                        if Ru is not None and lit in (b'/', b'/.', b'./'):
+                            run05.count('shield_condition_checks')
+                            ML = list(BASE10)
+                            has_a, has_s = B.c_has(ML, 'a+'), B.c_has(ML, 's+')
+                            anyw = B.c_infix(ML, 'p+', 'p-', lang.predicate_dfa('any', False))
+                            if lit == b'/':
+                                cond = difference(intersect(has_a, anyw), B.c_after(ML, 'p+', b'/'))
+                                what = 'an authority is present and the path does not start with "/"'
+                            elif lit == b'/.':
+                                cond = intersect(difference(anyw, has_a), B.c_after(ML, 'p+', b'//'))
+                                what = 'no authority is present and the path starts with "//"'
+                            else:
+                                cond = intersect(difference(difference(anyw, has_a), has_s), B.c_infix(ML, 'p+', 'p-', lang.predicate_dfa('first-segment-has-colon', False)))
+                                what = 'neither scheme nor authority is present and the first segment of the path contains ":"'
+                            wu = included(_renumber(Ru, outU, BASE10), cond)
+                            if wu is not None:
+                                run05.violation(f'shield-condition|{key}', f'{loc} [{guards_txt}] writes the shield {lit!r} on a path where its documented condition — {what} — does not always hold: '
+                                                f'e.g. for the intended result {_show_marked(wu)} (shown without the shield)', {'marked_unshielded': list(wu)})
                     # documented shields only
                     for i in si + ([i for i, pc in enumerate(pcs) if comp == 'p' and pc[0] == 'lit']):
                         lit = pcs[i][1]
